@@ -821,6 +821,7 @@ type vfc13Link struct {
 	ro       *RedisOutput
 	tg       *vfdoubles.Target
 	logMark  int
+	dbBlack  int      // database this link's filter black-lists (-1: none)
 	retired  bool     // the syncer switched its recovery format: its life under namespace `cp` is over (see retire)
 	names    []string // further namespace names this syncer generated (the one a format switch moves to)
 }
@@ -847,6 +848,84 @@ type vfc13World struct {
 	rerun        string // how VERIF_REPLAY re-runs this world: "hist <subseed> <events>" | "script <line>"
 	dbs          bool   // a history with DATABASES: clients write in databases 0 / 1 / 3, SELECT blocks in the streams, the exactly-once monitor also asks WHERE a unit was committed (D31); no Lean world op (the model has one keyspace)
 	reqDB        int    // database of the tool request being applied
+	flt          bool   // a history with USER FILTERS on both links (key prefix black list tmp:, command black list, slot black list of one key, on link B also database 3): what must come out of a client block is its projection by the filter (vfc13FltProject); no Lean world op (the world model has the default filter)
+}
+
+// ---- user filters inside the generated histories (dimension audit, session 5)
+
+var vfc13FltSlotKey = "user:5" // the one key the slot black list withholds
+
+func vfc13FltKeyFiltered(k []byte) bool {
+	return strings.HasPrefix(string(k), "tmp:") || vfc18HashSlot(k) == vfc18HashSlot([]byte(vfc13FltSlotKey))
+}
+
+// vfc13FltProject: what the configured filters let through of the commands of a client block, as the configuration
+// documents it (independent of pkg/filter): the command black list drops LPUSH; DEL / UNLINK keep the keys that pass,
+// MSET the pairs whose key passes; any other command goes as a whole unless one of its keys is withheld
+func (w *vfc13World) fltProject(cmds []vfc13Cmd) []vfc13Cmd {
+	var out []vfc13Cmd
+	for _, c := range cmds {
+		n := c.lower()
+		if n == "lpush" {
+			continue
+		}
+		switch n {
+		case "del", "unlink":
+			p := vfc13Cmd{Name: c.Name}
+			for _, k := range c.Args {
+				if !vfc13FltKeyFiltered(k) {
+					p.Args = append(p.Args, k)
+				}
+			}
+			if len(p.Args) > 0 {
+				out = append(out, p)
+			}
+		case "mset":
+			p := vfc13Cmd{Name: c.Name}
+			for i := 0; i+1 < len(c.Args); i += 2 {
+				if !vfc13FltKeyFiltered(c.Args[i]) {
+					p.Args = append(p.Args, c.Args[i], c.Args[i+1])
+				}
+			}
+			if len(p.Args) > 0 {
+				out = append(out, p)
+			}
+		default:
+			if len(c.Args) > 0 && vfc13FltKeyFiltered(c.Args[0]) {
+				continue
+			}
+			out = append(out, c)
+		}
+	}
+	return out
+}
+
+// fltCmd: client commands that meet the filters (keys user:N / tmp:N; multi-key DEL / UNLINK / MSET; LPUSH)
+func vfc13FltCmd(r *vfutil.Rand) vfc13Cmd {
+	key := func() string {
+		if r.Chance(2, 5) {
+			return fmt.Sprintf("tmp:%d", r.Intn(4))
+		}
+		return fmt.Sprintf("user:%d", r.Intn(7))
+	}
+	switch r.Intn(6) {
+	case 0, 1:
+		args := []string{}
+		for i, n := 0, r.Range(1, 4); i < n; i++ {
+			args = append(args, key())
+		}
+		return vfc13C(vfutil.Pick(r, []string{"DEL", "UNLINK"}), args...)
+	case 2, 3:
+		args := []string{}
+		for i, n := 0, r.Range(1, 4); i < n; i++ {
+			args = append(args, key(), fmt.Sprintf("v%d", r.Intn(100)))
+		}
+		return vfc13C("MSET", args...)
+	case 4:
+		return vfc13C("LPUSH", "l0", "x")
+	default:
+		return vfc13C("SET", key(), fmt.Sprintf("v%d", r.Intn(100)))
+	}
 }
 
 // violate: Session.Violate with the world's re-run recipe in the replay record
@@ -880,7 +959,7 @@ func vfc13NewWorld(t *testing.T, s *vfutil.Session, r *vfutil.Rand, ca, cb vfc13
 		// the root checkpoint a finished full sync leaves at the target (state of the double only): the real StartPoint reads it
 		rid := "runid-" + vfc13SiteName(i)
 		tg.Seed(0, "hset", cp, rid+"_runid", rid, rid+"_version", config.Version, rid+"_offset", "0", "bisync_mode", vfc13ModeName(mode))
-		w.links[i] = &vfc13Link{src: i, dst: 1 - i, cp: cp, ro: ro, tg: tg, mode: mode}
+		w.links[i] = &vfc13Link{src: i, dst: 1 - i, cp: cp, ro: ro, tg: tg, mode: mode, dbBlack: -1}
 	}
 	return w
 }
@@ -1113,6 +1192,11 @@ func (w *vfc13World) applyToolRequest(l *vfc13Link, q vfc13Req) {
 	w.sites[l.dst].exec(true, q.cmds, func(int) string { return "book" })
 }
 
+// link B (reading site 1) of a history with databases AND filters black-lists database 3
+func src1DbBlack(l *vfc13Link, blk vfc13Block) bool {
+	return l.dbBlack >= 0 && blk.db == l.dbBlack
+}
+
 func vfc13IsMarkerSet(c vfc13Cmd) bool {
 	return c.lower() == "set" && len(c.Args) == 4 && checkpoint.IsBisyncMarkerKey(string(c.Args[0]))
 }
@@ -1124,7 +1208,14 @@ func (w *vfc13World) skipBlock(l *vfc13Link, kind string, blk vfc13Block) {
 	if blk.tag[0] == 'f' {
 		var id int
 		fmt.Sscanf(blk.tag, "f%d", &id)
-		if w.foreignOK[id] && len(blk.cmds) > 0 {
+		owed := len(blk.cmds) > 0
+		if w.flt {
+			owed = len(w.fltProject(blk.cmds)) > 0
+		}
+		if w.dbs && src1DbBlack(l, blk) {
+			owed = false // the user's database black list of this link withholds it
+		}
+		if w.foreignOK[id] && owed {
 			w.violate("foreign-block-suppressed", "a client/expiry block outside the reserved namespace was consumed by the link without being committed at the other site",
 				map[string]interface{}{"block": blk.tok(), "tag": blk.tag, "site": name, "redis": w.sites[l.src].cfg.bits()})
 			w.viol = true
@@ -1426,17 +1517,24 @@ func (w *vfc13World) commitBlock(l *vfc13Link, kind string, blk vfc13Block, txn 
 		return
 	}
 	// the business commands are the block's commands (names lower-cased), nothing else
-	same := len(business) == len(blk.cmds)
+	wantCmds := blk.cmds
+	if w.flt {
+		wantCmds = w.fltProject(blk.cmds)
+	}
+	same := len(business) == len(wantCmds)
 	for i := 0; same && i < len(business); i++ {
-		if business[i].lower() != blk.cmds[i].lower() || len(business[i].Args) != len(blk.cmds[i].Args) {
+		if business[i].lower() != wantCmds[i].lower() || len(business[i].Args) != len(wantCmds[i].Args) {
 			same = false
 			break
 		}
 		for k := range business[i].Args {
-			if !bytes.Equal(business[i].Args[k], blk.cmds[i].Args[k]) {
+			if !bytes.Equal(business[i].Args[k], wantCmds[i].Args[k]) {
 				same = false
 			}
 		}
+	}
+	if w.dbs && blk.tag[0] == 'f' && src1DbBlack(l, blk) {
+		w.s.Count("observation_block_of_black_listed_database_forwarded_after_a_restart_without_select")
 	}
 	if !same && blk.tag[0] == 'f' {
 		var id int
@@ -1733,6 +1831,10 @@ func (w *vfc13World) streamTok(i int) string {
 }
 
 func (w *vfc13World) finish() {
+	if w.flt {
+		w.s.Count("history_with_user_filters")
+		return
+	}
 	if w.dbs {
 		// the Lean world has one keyspace per site and no SELECT blocks: a history with databases is judged by the
 		// monitors on the implementation (no loop, nothing suppressed, each once, quiescence, and the database)
@@ -1817,6 +1919,11 @@ func vfc13RunHistory(t *testing.T, s *vfutil.Session, sub uint64, nEv int) bool 
 // vfc13RunHistoryOpt: dbs = a history with databases (see vfc13World.dbs); the generator draws nothing extra when dbs is
 // false, so the histories without databases are the ones of the earlier sessions
 func vfc13RunHistoryOpt(t *testing.T, s *vfutil.Session, sub uint64, nEv int, dbs bool) bool {
+	return vfc13RunHistoryOpt2(t, s, sub, nEv, dbs, false)
+}
+
+// flt = a history with user filters on both links (see vfc13World.flt); with dbs also a database black list on link B
+func vfc13RunHistoryOpt2(t *testing.T, s *vfutil.Session, sub uint64, nEv int, dbs, flt bool) bool {
 	r := vfutil.NewRand(sub)
 	cfgs := func() vfc13RedisCfg { return vfc13RedisCfg{r.Bool(), r.Chance(3, 4), r.Chance(3, 4)} }
 	mode := vfutil.Pick(r, []config.ReplayMode{config.ReplayModeSync, config.ReplayModePipeline, config.ReplayModeParallel})
@@ -1825,6 +1932,28 @@ func vfc13RunHistoryOpt(t *testing.T, s *vfutil.Session, sub uint64, nEv int, db
 	w.dbs = dbs
 	if dbs {
 		w.rerun = fmt.Sprintf("histdb %d %d", sub, nEv)
+	}
+	if flt {
+		w.flt = true
+		w.rerun = fmt.Sprintf("histflt %d %d %v", sub, nEv, dbs)
+		slot := uint16(vfc18HashSlot([]byte(vfc13FltSlotKey)))
+		for i, l := range w.links {
+			cfg := l.ro.cfg
+			cfg.Filter.KeyFilter = &config.FilterKeyConfig{PrefixKeyBlacklist: []string{"tmp:"}}
+			cfg.Filter.CmdBlacklist = []string{"lpush"}
+			cfg.Filter.SlotFilter = &config.FilterSlotConfig{KeySlotBlacklist: [][]uint16{{slot, slot}}}
+			if dbs && i == 1 {
+				cfg.Filter.DbBlacklist = []int{3}
+				l.dbBlack = 3
+				s.Count("cfg_filter_dbBlacklist_3")
+			}
+			ro := NewRedisOutput(cfg)
+			ro.newRedisConn = l.ro.newRedisConn
+			l.ro = ro
+		}
+		s.Count("cfg_filter_prefixKeyBlacklist_tmp")
+		s.Count("cfg_filter_cmdBlacklist_lpush")
+		s.Count("cfg_filter_slotBlacklist_one_slot")
 	}
 	w.cuts = r.Chance(1, 3)
 	if w.cuts {
@@ -1836,6 +1965,20 @@ func vfc13RunHistoryOpt(t *testing.T, s *vfutil.Session, sub uint64, nEv int, db
 		if w.dbs && r.Chance(1, 3) {
 			// the clients of this site go on in another database
 			w.sites[site].selectDB(vfutil.Pick(r, []int{0, 0, 1, 3}))
+		}
+		if w.flt && r.Chance(1, 3) {
+			// client writes that meet the filters: single commands and transactions of 2-4
+			if r.Bool() {
+				w.client(site, false, []vfc13Cmd{vfc13FltCmd(r)}, true)
+			} else {
+				cs := make([]vfc13Cmd, r.Range(2, 4))
+				for j := range cs {
+					cs[j] = vfc13FltCmd(r)
+				}
+				w.client(site, true, cs, true)
+			}
+			s.Count("history_flt_client_write_meeting_the_filters")
+			continue
 		}
 		switch x := r.Intn(100); {
 		case x < 30:
@@ -1961,6 +2104,14 @@ func TestVerifC13(t *testing.T) {
 			vfc13RunHistoryOpt(t, s, sub, nEv, true)
 			s.Count("replayed_history_with_databases")
 			return
+		case f[0] == "histflt" && len(f) == 2:
+			var sub uint64
+			var nEv int
+			var dbs bool
+			fmt.Sscanf(f[1], "%d %d %t", &sub, &nEv, &dbs)
+			vfc13RunHistoryOpt2(t, s, sub, nEv, dbs, true)
+			s.Count("replayed_history_with_filters")
+			return
 		case f[0] == "script" && len(f) == 2:
 			vfc13RunScript(t, s, f[1])
 			s.Count("replayed_script")
@@ -1980,6 +2131,10 @@ func TestVerifC13(t *testing.T) {
 				vfc13PartialFilterProbe(t, s, 0)
 			}
 			s.Count("replayed_partialfilter")
+			return
+		case f[0] == "dims":
+			vfc13DimsProbe(t, s)
+			s.Count("replayed_dims")
 			return
 		case f[0] == "clusterloop":
 			vfc13ClusterProbe(t, s)
@@ -2227,6 +2382,9 @@ func TestVerifC13(t *testing.T) {
 	// ---- links with a partial key filter: projected DEL / UNLINK / MSET held between parser and sender (vf_c13_partial_test.go)
 	vfc13PartialFilterProbe(t, s, 0)
 
+	// ---- dimension audit: forced degenerate inputs, transaction sizes, option values (vf_c13_dims_test.go)
+	vfc13DimsProbe(t, s)
+
 	// ---- the closed loop with a CLUSTER pair (vf_c13_cluster_test.go)
 	vfc13ClusterProbe(t, s)
 
@@ -2249,6 +2407,13 @@ func TestVerifC13(t *testing.T) {
 	rd := vfutil.NewRand(vfutil.Seed() ^ 0x5d31)
 	for i := 0; i < vfutil.Scale(40, 1200); i++ {
 		vfc13RunHistoryOpt(t, s, rd.U64(), rd.Range(10, 70), true)
+	}
+	// ---- histories with USER FILTERS on both links (dimension audit): half of them also with databases and a database black list
+	rf := vfutil.NewRand(vfutil.Seed() ^ 0xf117)
+	for i := 0; i < vfutil.Scale(40, 1200); i++ {
+		if vfc13RunHistoryOpt2(t, s, rf.U64(), rf.Range(10, 70), i%2 == 1, true) {
+			s.Count("history_with_user_filters_violating")
+		}
 	}
 }
 
